@@ -307,13 +307,16 @@ class Sp3dParser(ChainParser):
         self.data.setdefault("sat_clock_bias", list()).append(
             float(line["clk_bias"]) * Unit.microsecond2second * constant.c
         )
+        # The accuracy columns hold exponents: sigma = base**exponent (in mm resp. psec), 'nan' if not given
+        sig_pos = np.array([float(line["sig_pos_x"]), float(line["sig_pos_y"]), float(line["sig_pos_z"])])
+        sig_clk = float(line["sig_clk_bias"])
         self.data.setdefault("sat_pos_sigma", list()).append(
-            np.array([float(line["sig_pos_x"]), float(line["sig_pos_y"]), float(line["sig_pos_z"])])
-            * self.meta["base_posvel"]
-            * Unit.millimeter2meter
+            np.where(np.isnan(sig_pos), np.nan, self.meta["base_posvel"] ** sig_pos) * Unit.millimeter2meter
         )
         self.data.setdefault("sat_clock_bias_sigma", list()).append(
-            float(line["sig_clk_bias"]) * self.meta["base_clkrate"] * Unit.picosecond2second * constant.c
+            (np.nan if np.isnan(sig_clk) else self.meta["base_clkrate"] ** sig_clk)
+            * Unit.picosecond2second
+            * constant.c
         )
 
         # Get GNSS identifier
